@@ -301,9 +301,9 @@ def case_real(c):
 def run(ctx):
     T = ctx.tier == 'thorough'
     cases = []
-    nbs = list(range(1, 51)) if T else [1, 2, 3, 4, 5, 7, 10, 16, 25, 33, 50]
-    for rate in RATES:
-        for P in BRANCHES:
+    nbs = list(range(1, 101)) if T else [1, 2, 3, 4, 5, 7, 10, 16, 25, 33, 50]
+    for rate in (RATES + [2.5e9, 187.5e6, 1e9 / 3] if T else RATES):
+        for P in (BRANCHES + [16, 128, 4096] if T else BRANCHES):
             for M in TAPS:
                 for nch in sorted(set([1, 3, P // 2])):
                     if nch > P // 2:
